@@ -67,6 +67,18 @@ def value_alphabet(f: refdb.Field, db):
             v = Fraction(rv) * res + off
             fv = float(v) if (res.denominator != 1 or off.denominator != 1) else int(v)
             out.append((label, fv, fv, ("reject",)))
+        if off != 0 and rr:
+            # fields with an offset: values a wrong order of scaling and offsetting would map into the representable interval
+            mid = (rr[0] + rr[1]) // 2
+            for label, v in (("offset_forgotten", Fraction(mid) * res), ("offset_in_steps", (Fraction(mid) + off) * res),
+                             ("offset_twice", Fraction(mid) * res + 2 * off), ("half_offset", off / 2), ("zero", Fraction(0)),
+                             ("offset_negated", Fraction(mid) * res - off), ("step_times_offset", res * off)):
+                raw_needed = (v - off) / res
+                fv = float(v) if (res.denominator != 1 or off.denominator != 1) else int(v)
+                if lo_raw <= raw_needed <= hi_raw:
+                    out.append((label, fv, fv, ("num", Fraction(fv))))
+                elif raw_needed < lo_raw - 1 or raw_needed > hi_raw + 2:
+                    out.append((label, fv, fv, ("reject",)))
         if not f.signed:
             v = Fraction(-1) * res + off
             fv = float(v) if (res.denominator != 1 or off.denominator != 1) else int(v)
@@ -167,11 +179,12 @@ def _task(args):
             continue
         try:
             base_q = payload_of(enc.encode_actisense(base_msg))
+            base_int = int.from_bytes(base_q, "little")
         except Exception:  # noqa: BLE001
-            st["skipped_defs"] += 1
-            continue
+            # the decoded base does not encode (C02's subject); what a changed field may be accepted as is still judged
+            base_q = base_int = None
+            st["base_not_encodable"] = st.get("base_not_encodable", 0) + 1
         st["defs"] += 1
-        base_int = int.from_bytes(base_q, "little")
         # match fields select the definition: giving them another value asks for a different definition, not for another value
         alph = [value_alphabet(f, db) if f.match is None else [] for f in defn.fields]
         per_def = 0
@@ -239,7 +252,7 @@ def _task(args):
                 allowed = 0
                 for i in combo:
                     allowed |= ((1 << defn.fields[i].bits) - 1) << defn.fields[i].offset
-                if (qi ^ base_int) & ~allowed:
+                if base_int is not None and (qi ^ base_int) & ~allowed:
                     emit("other_bits_changed", {"field": defn.fields[combo[0]].id, "label_class": choice[0][0].split(":")[0]},
                          f"{case['set']}: payload {q.hex()} differs from base {base_q.hex()} outside the changed field(s)", case)
                     continue
@@ -288,11 +301,11 @@ def run(ctx):
         buckets[j % nb].append(i)
     results = common.pmap(_task, [(b, k) for b in buckets if b])
     vios, samples = [], []
-    tot = {"cases": 0, "encoded": 0, "rejected": 0, "nontrivial": 0, "defs": 0, "skipped_defs": 0}
+    tot = {"cases": 0, "encoded": 0, "rejected": 0, "nontrivial": 0, "defs": 0, "skipped_defs": 0, "base_not_encodable": 0}
     for st, v, s in results:
         vios += v
         for key in tot:
-            tot[key] += st[key]
+            tot[key] += st.get(key, 0)
         if s and len(samples) < 4:
             samples.append(s)
     cov = {
@@ -300,7 +313,7 @@ def run(ctx):
         "evaluations": tot["cases"], "distinct_nontrivial": tot["nontrivial"], "distinct_outcomes": 2 + len({v["kind"] for v in vios}),
         "rule": "one case per (definition, <=k fields, value from the field's value alphabet) plus one per removed field; "
                 "non-trivial = a value assignment (not a removal)",
-        "samples": samples, "encodable_definitions_exercised": tot["defs"], "definitions_skipped_no_base": tot["skipped_defs"],
+        "samples": samples, "encodable_definitions_exercised": tot["defs"], "definitions_skipped_no_base": tot["skipped_defs"], "definitions_whose_base_does_not_encode": tot["base_not_encodable"],
         "payloads_produced": tot["encoded"], "rejected_with_ValueError": tot["rejected"],
         "bound_completed": f"k={k} fields at a time over the value alphabet; every field removed once", "exhaustive": True,
     }
